@@ -82,3 +82,26 @@ pub fn ambiguity(max_kind: u32, kind: usize, dst: u8, side: u8) {
     kani::cover!(want == 3);
     std::mem::forget(g);
 }
+
+/// check suffix: the produced text ends in '+' (or '#') exactly when the move gives check (castling included)
+pub fn suffix(kind: usize, side: u8, max_men: u32) {
+    let p = pos::any_valid();
+    if side < 2 { kani::assume(p.white_to_move == (side == 0)); }
+    kani::assume(p.occ().count_ones() <= max_men);
+    let (w, m) = step::any_legal(&p);
+    kani::assume(m.kind == kind);
+    #[cfg(test)] println!("REPLAY-CASE {{\"fen\":\"{}\",\"move\":\"{}\"}}", pos::fen_of(&p), pos::move_text(w));
+    unsafe { CUR = Some(p); KIND = m.kind; TO = pos::raw_dst(w); EXTRA = 0; }
+    let g = pos::game_of(&p);
+    let text = san::format_move(&g, move_of(w));
+    let b = text.as_bytes();
+    let us = p.us();
+    let occ2 = pos::occ_all(&m.after);
+    let gives_check = pos::attacked(&m.after, occ2, m.after[1 - us][K], us);
+    let last = b[b.len() - 1];
+    assert!((last == b'+' || last == b'#') == gives_check);
+    kani::cover!(gives_check);
+    kani::cover!(!gives_check);
+    std::mem::forget(g);
+    std::mem::forget(text);
+}
